@@ -90,7 +90,7 @@ enum { FR_CLEN = 0, FR_CHUNKED, FR_CLOSE, FR_NONE };
 struct rspec {
 	int status; const char * reason; int minor; unsigned hmask; int fr_first;
 	int framing; size_t bodysize; int nchunks; size_t chunks[6]; int chunkstyle;	/* 0 lower hex, 1 upper, 2 leading zeros, 3 with ;ext */
-	int ninterim, interim_long; int in_end; size_t limit_extra;	/* limit = bodysize + limit_extra, or 1000000 if limit_extra == 99 */
+	int ninterim, interim_long; int in_end; size_t limit_extra;	/* limit = bodysize + limit_extra, or bodysize + 1000000 if limit_extra == 99 */
 	int method, nreqh, reqbody; size_t nbuf; size_t pad;		/* pad: X-Pad header of this many bytes */
 	int clen_on_bodiless;	/* HEAD/204/304 carrying a Content-Length header */
 };
@@ -148,7 +148,7 @@ gen(const struct rspec * r)
 	c->resp = b.p; c->resplen = b.n;
 	c->in_end = (!bodiless && r->framing == FR_CLOSE) ? FK_END_EOF : r->in_end;
 	c->wellformed = 1;
-	c->limit = r->limit_extra == 99 ? 1000000 : c->bodylen + r->limit_extra;
+	c->limit = r->limit_extra == 99 ? c->bodylen + 1000000 : c->bodylen + r->limit_extra;	/* 99: a limit far above the body size */
 	c->method = r->method; c->nreqh = r->nreqh; c->reqbody = r->reqbody; c->nbuf = r->nbuf;
 	snprintf(c->desc, sizeof(c->desc), "status %d hdrs 0x%x framing %d body %zu chunks %d/%d interim %d%s limit %zu method %d reqh %d reqbody %d buf %zu pad %zu end %d",
 	    r->status, r->hmask, r->framing, c->bodylen, r->nchunks, r->chunkstyle, r->ninterim, r->interim_long ? "L" : "", c->limit, r->method, r->nreqh, r->reqbody, r->nbuf, r->pad, c->in_end);
@@ -519,6 +519,11 @@ gen_hostile(int thorough)
 			attack(nbuf, lim, FK_END_EOF, "chunked2-vs-limit", "HTTP/1.1 200 OK\r\nTransfer-Encoding: chunked\r\n\r\n2\r\nab\r\n3\r\ncde\r\n0\r\n\r\n");
 			attack(nbuf, lim, FK_END_EOF, "close-vs-limit", "HTTP/1.1 200 OK\r\n\r\nabcde");
 		}
+		/* a caller that sets no effective limit: sizes near SIZE_MAX must not wrap */
+		attack(nbuf, (size_t)-1, FK_END_EOF, "nolimit-chunk-max", "HTTP/1.1 200 OK\r\nTransfer-Encoding: chunked\r\n\r\nffffffffffffffff\r\nabc");
+		attack(nbuf, (size_t)-1, FK_END_EOF, "nolimit-chunk-max-1", "HTTP/1.1 200 OK\r\nTransfer-Encoding: chunked\r\n\r\nfffffffffffffffe\r\nabc");
+		attack(nbuf, (size_t)-2, FK_END_EOF, "nolimit-chunk-max-2", "HTTP/1.1 200 OK\r\nTransfer-Encoding: chunked\r\n\r\n2\r\nab\r\nfffffffffffffffd\r\nabc");
+		attack(nbuf, (size_t)-1, FK_END_EOF, "nolimit-clen-max", "HTTP/1.1 200 OK\r\nContent-Length: 18446744073709551615\r\n\r\nabc");
 		attack(nbuf, 0, FK_END_EOF, "limit0-clen0", "HTTP/1.1 200 OK\r\nContent-Length: 0\r\n\r\n");
 		attack(nbuf, 0, FK_END_EOF, "limit0-clen1", "HTTP/1.1 200 OK\r\nContent-Length: 1\r\n\r\na");
 		attack(nbuf, 0, FK_END_EOF, "limit0-chunked", "HTTP/1.1 200 OK\r\nTransfer-Encoding: chunked\r\n\r\n1\r\na\r\n0\r\n\r\n");
